@@ -3,6 +3,7 @@
    oracle returning elements of its input.  Legality of the generated moves themselves is C01;
    the runtime part (real threads) is exercised on the binary by the check. *)
 From Walleye Require Import Model.Uci Proofs.SessionProofs Proofs.RootProofs.
+From Walleye Require Import Spec.Abs Proofs.GenerateAbs Proofs.LegalMoves Proofs.MakeMoveSame Proofs.GoAnswer Proofs.PositionGo.
 Open Scope Z_scope.
 
 (* whatever the search hands back, at whichever point the clock expires, is a generated root move *)
@@ -31,6 +32,45 @@ Theorem C03_terminal_answer : forall zt osort st cmds sc gt,
   go_step zt osort st cmds sc = (st, [s_bestmove ++ NULL_MOVE_TEXT]).
 Proof. exact go_terminal. Qed.
 
+(* end to end: for a well-formed current position with at least one move, a go that is answered prints the info lines
+   followed by "bestmove" and the UCI text (promotion letter exactly when the move promotes, by text_of_move) of a
+   LEGAL move of that position, and the session continues from the position the rules give for it, which is again
+   well-formed: so every later go of a chain is answered legally as well - for every schedule and ordering oracle
+   that returns elements of its input *)
+Theorem C03_bestmove_is_a_legal_move : forall zt osort,
+  (forall i l x, In x (osort i l) -> In x l) ->
+  forall st cmds sc gt st' outs,
+  pos_ok1 (ss_board st) ->
+  parse_go_command cmds = Ok gt -> generate_moves zt (ss_board st) AllMoves <> [] ->
+  go_step zt osort st cmds sc = (st', outs) -> ss_phase st' = Running -> st' <> st ->
+  exists mv infos,
+    In mv (legal_moves (abs (ss_board st))) /\
+    outs = infos ++ [s_bestmove ++ text_of_move mv] /\
+    abs (ss_board st') = apply (abs (ss_board st)) mv /\ pos_ok1 (ss_board st').
+Proof. exact go_answer_is_legal. Qed.
+
+(* the two lines together, through the command loop of the session model: after a `position` line whose command
+   builds board b (C04_position_fen_command / C04_position_startpos_command: b denotes the position P the rules give
+   and is well-formed), the `go` line prints: the null move when P has no legal move; otherwise either nothing but
+   info lines (the search sent nothing; state unchanged) or info lines and then "bestmove" with the text of a legal
+   move of P, the session continuing from the position the rules give for it *)
+Theorem C03_position_then_go : forall zt osort,
+  (forall i l x, In x (osort i l) -> In x l) ->
+  forall st raw1 sc1 cmds1 b t P raw2 sc2 cmds2 gt st' outs,
+  ss_phase st = Running ->
+  split_on 32 (clean_input raw1) = cmds1 -> nth_error cmds1 0 = Some s_position ->
+  play_out_position zt cmds1 = Ok (b, t) -> abs b = P -> pos_ok1 b ->
+  split_on 32 (clean_input raw2) = cmds2 -> nth_error cmds2 0 = Some s_go -> parse_go_command cmds2 = Ok gt ->
+  run zt osort st [(Line raw1, sc1); (Line raw2, sc2)] = (st', outs) -> ss_phase st' = Running ->
+  (legal_moves P = [] /\ outs = [s_bestmove ++ NULL_MOVE_TEXT] /\ ss_board st' = b) \/
+  (legal_moves P <> [] /\ st' = mkSess b t Running /\
+     exists ev s, get_best_move zt osort (sc_k sc2) (sc_fuel sc2) b t = Ok (ev, s) /\ sends_of ev = [] /\ outs = infos_of ev) \/
+  (exists mv infos, In mv (legal_moves P) /\ outs = infos ++ [s_bestmove ++ text_of_move mv] /\
+                    abs (ss_board st') = apply P mv /\ pos_ok1 (ss_board st')).
+Proof. exact position_then_go. Qed.
+
 Print Assumptions C03_sends_are_root_moves.
+Print Assumptions C03_position_then_go.
+Print Assumptions C03_bestmove_is_a_legal_move.
 Print Assumptions C03_answer_is_a_send.
 Print Assumptions C03_terminal_answer.
